@@ -27,6 +27,7 @@
 #include "meta.h"
 
 #include "c08_gen.h"
+#include "c08_rec.h"
 #include "vf.h"
 
 const char *vf_name = "c08_parse";
@@ -102,212 +103,14 @@ typedef struct {
 static const char *const vocab[] = { "a", "b", "c", "ab", "x", "y", "name", "n1", "sect", "opt", "k", "zz" };
 #define NVOCAB (sizeof(vocab) / sizeof(*vocab))
 
-/* ------------------------------------------------------ event nesting model */
-typedef struct {
-	input *in;
-	int binary;                     /* path is in SepBinary form */
-	int sep;
-	long fail_at;                   /* index of the event the handler refuses, -1: never */
-	int refused;
-	uint64_t count;
-	uint64_t kinds[8];
-	/* open sections */
-	bytes names;
-	size_t *lens, depth, cap, maxdepth;
-	/* first nesting error */
-	const char *nest_key;
-	char nest_msg[400];
-} recorder;
-
-static void rec_init(recorder *rec, input *in, int binary, long fail_at)
+/* every save event counts for the callback bound */
+static void tick(void *arg, const char *where)
 {
-	memset(rec, 0, sizeof(*rec));
-	rec->in = in;
-	rec->binary = binary;
-	rec->sep = '.';
-	rec->fail_at = fail_at;
-}
-static void rec_fini(recorder *rec)
-{
-	b_free(&rec->names);
-	free(rec->lens);
-	rec->lens = 0;
-}
-static void rec_push(recorder *rec, const uint8_t *name, size_t len)
-{
-	if (rec->depth == rec->cap) {
-		rec->cap = rec->cap ? rec->cap * 2 : 16;
-		rec->lens = realloc(rec->lens, rec->cap * sizeof(*rec->lens));
-		if (!rec->lens) vf_inconclusive("out of memory");
-	}
-	b_add(&rec->names, name, len);
-	rec->lens[rec->depth++] = len;
-	if (rec->depth > rec->maxdepth) rec->maxdepth = rec->depth;
-}
-static void rec_pop(recorder *rec)
-{
-	rec->names.n -= rec->lens[--rec->depth];
-}
-static void nest_error(recorder *rec, const char *key, const char *what, int curr, const uint8_t *p, size_t plen)
-{
-	char hx[160];
-	if (rec->nest_key) return;
-	rec->nest_key = key;
-	snprintf(rec->nest_msg, sizeof(rec->nest_msg), "event %llu (code %x): %s; %zu section(s) open; path bytes %s",
-	         (unsigned long long) rec->count, curr, what, rec->depth, vf_hex(hx, sizeof(hx), p, plen));
-}
-/*
- * Split the path into elements.  Text form: bytes [0,len-1) separated by
- * path.sep, the last byte is the terminator written by mpt_path_add.  Binary
- * form: first | name | len | nextlen | name | len | 0.
- * Returns number of elements or -1 when the bytes do not have that form.
- */
-static long path_split(const MPT_STRUCT(path) *path, const uint8_t *p, size_t len, int binary,
-                       size_t *starts, size_t *lens, size_t max)
-{
-	size_t n = 0;
-	if (!len) return 0;
-	if (!binary) {
-		size_t s = 0;
-		for (size_t i = 0; i + 1 < len; i++) {
-			if (p[i] == (uint8_t) path->sep) {
-				if (n >= max) return -1;
-				starts[n] = s; lens[n++] = i - s;
-				s = i + 1;
-			}
-		}
-		if (n >= max) return -1;
-		starts[n] = s; lens[n++] = (len - 1) - s;
-		return (long) n;
-	}
-	size_t off = 0, l = path->first;
-	while (off < len) {
-		if (off + l + 2 > len) return -1;
-		if (p[off + l] != l) return -1;
-		if (n >= max) return -1;
-		starts[n] = off; lens[n++] = l;
-		off += l + 2;
-		l = p[off - 1];
-	}
-	return (long) n;
-}
-static int rec_save(void *arg, const MPT_STRUCT(path) *path, const MPT_STRUCT(value) *val, int prev, int curr)
-{
-	recorder *rec = arg;
-	input *in = rec->in;
-	uint8_t *pcopy, *vcopy = 0;
-	size_t plen = path->len, vlen = 0;
-	size_t *starts, *lens;
-	long n;
-
-	(void) prev;
+	input *in = arg;
 	in->saves++;
-	bound_check(in, "save");
-
-	/* touch everything the handler is given (ASan decides whether it may) */
-	pcopy = vf_xalloc(plen);
-	if (plen) memcpy(pcopy, path->base + path->off, plen);
-	if (val) {
-		const struct iovec *io = val->_addr;
-		vlen = io->iov_len;
-		vcopy = vf_xalloc(vlen);
-		if (vlen) memcpy(vcopy, io->iov_base, vlen);
-	}
-	if (curr >= 0 && curr < 8) rec->kinds[curr]++;
-
-	starts = malloc((plen + 1) * 2 * sizeof(*starts));
-	lens = starts + plen + 1;
-	n = path_split(path, pcopy, plen, rec->binary, starts, lens, plen + 1);
-
-	if (vf_logging) {
-		char hp[200], hv[100];
-		vf_log("  save #%llu prev=%x curr=%x path[%zu]=%s val[%zu]=%s depth=%zu", (unsigned long long) rec->count, prev, curr,
-		       plen, vf_hex(hp, sizeof(hp), pcopy, plen), vlen, val ? vf_hex(hv, sizeof(hv), vcopy, vlen) : "-", rec->depth);
-	}
-	if (n < 0) {
-		nest_error(rec, "model:events:path-malformed", "path bytes are not a separated element list", curr, pcopy, plen);
-	}
-	else {
-		/* elements [0,depth) must be the open sections */
-		size_t want = rec->depth, i, off = 0;
-		int prefix_ok = (size_t) n >= want;
-		for (i = 0; prefix_ok && i < want; i++) {
-			if (lens[i] != rec->lens[i] || memcmp(pcopy + starts[i], rec->names.d + off, lens[i])) prefix_ok = 0;
-			off += rec->lens[i];
-		}
-		switch (curr) {
-		case MPT_PARSEFLAG(Section):
-			if (!prefix_ok || (size_t) n != want + 1) {
-				nest_error(rec, "model:events:section-path", "section start whose path is not the open sections plus one name", curr, pcopy, plen);
-			}
-			if (n > 0) rec_push(rec, pcopy + starts[n - 1], lens[n - 1]);
-			else rec_push(rec, pcopy, 0);
-			break;
-		case MPT_PARSEFLAG(SectEnd):
-			if (!rec->depth) {
-				nest_error(rec, "model:events:sectend-unmatched", "section end while no section is open", curr, pcopy, plen);
-				break;
-			}
-			if (!prefix_ok || (size_t) n != want) {
-				nest_error(rec, "model:events:sectend-path", "section end whose path is not the open sections", curr, pcopy, plen);
-			}
-			rec_pop(rec);
-			break;
-		case MPT_PARSEFLAG(Option):
-		case MPT_PARSEFLAG(Option) | MPT_PARSEFLAG(Data):
-			if (!prefix_ok || (size_t) n != want + 1) {
-				nest_error(rec, "model:events:option-path", "option whose path is not the open sections plus the option name", curr, pcopy, plen);
-			}
-			if (!val != !(curr & MPT_PARSEFLAG(Data))) {
-				nest_error(rec, "model:events:value-presence", "value argument does not match the data flag", curr, pcopy, plen);
-			}
-			break;
-		case MPT_PARSEFLAG(Data):
-			if (!prefix_ok || (size_t) n != want) {
-				nest_error(rec, "model:events:data-path", "anonymous data whose path is not the open sections", curr, pcopy, plen);
-			}
-			if (!val) {
-				nest_error(rec, "model:events:value-presence", "data event without value", curr, pcopy, plen);
-			}
-			break;
-		default:
-			nest_error(rec, "model:events:unknown-code", "event code is none of section/section end/option/data", curr, pcopy, plen);
-		}
-	}
-	free(starts);
-	vf_xfree(pcopy, plen);
-	vf_xfree(vcopy, vlen);
-
-	if (rec->fail_at >= 0 && (uint64_t) rec->fail_at == rec->count++) {
-		rec->refused = 1;
-		return -1;
-	}
-	return 0;
+	bound_check(in, where);
 }
-/* verdict over a finished parse that went through rec_save */
-static void rec_verdict(recorder *rec, const format *f, int ret, const char *driver, const char *desc)
-{
-	if (rec->refused) {
-		VF_CHECK(ret < 0, "model:parse_config:save-failure-ignored",
-		         "%s %s: save handler refused event %ld but the parse returned %d", driver, desc, rec->fail_at, ret);
-	}
-	if (ret < 0) {
-		vf_count("outcome:rejected", 1);
-		return;
-	}
-	vf_count("outcome:accepted", 1);
-	vf_count("monitor:nesting-verdicts", 1);
-	if (rec->nest_key) {
-		vf_fail(rec->nest_key, "%s %s: accepted (%d) although %s", driver, desc, ret, rec->nest_msg);
-	}
-	if (rec->depth) {
-		/* flat families end the last section by end of input */
-		int flat = f->type == ' ' || (f->type == 'x' && f->pf.sstart == f->pf.send);
-		VF_CHECK(flat && rec->depth == 1, "model:events:open-at-end",
-		         "%s %s: accepted (%d) with %zu section(s) still open", driver, desc, ret, rec->depth);
-		vf_count("state:flat-section-open-at-eof", 1);
-	}
-}
+typedef c08_recorder recorder;
 
 /* ---------------------------------------------------------- tree snapshot */
 static void snap_node(bytes *b, const MPT_STRUCT(node) *n)
@@ -455,14 +258,16 @@ static int drive_config(const testcase *tc, vf_rng *r)
 	int ret;
 
 	input_init(&in, &tc->doc, err_at);
-	rec_init(&rec, &in, 0, fail_at);
+	c08_rec_init(&rec, 0, fail_at);
+	rec.tick = tick;
+	rec.tick_arg = &in;
 	ctx_setup(&ctx, &in, tc, r);
 	ctx.prev = vf_chance(r, 1, 2) ? MPT_PARSEFLAG(Section) : 0;
 	vf_fp_u64(0xA0 ^ ((uint64_t) err_at << 8) ^ ((uint64_t) (fail_at + 1) << 40) ^ ((uint64_t) ctx.prev << 60));
 	vf_log("A: mpt_parse_config %s err_at=%zd fail_at=%ld prev=%x", tc->desc, (ssize_t) err_at, fail_at, ctx.prev);
 	vf_at("mpt_parse_config");
 	vf_count("mpt_parse_config", 1);
-	ret = mpt_parse_config(tc->f.next, &pf, &ctx, rec_save, &rec);
+	ret = mpt_parse_config(tc->f.next, &pf, &ctx, c08_rec_save, &rec);
 	vf_log("A: = %d (%s) line=%zu getc=%llu saves=%llu after_end=%llu", ret, retname(ret), ctx.src.line,
 	       (unsigned long long) in.calls, (unsigned long long) in.saves, (unsigned long long) in.after_end);
 	vf_count("monitor:callback-bound-checks", in.calls + in.saves);
@@ -477,7 +282,7 @@ static int drive_config(const testcase *tc, vf_rng *r)
 		default:  vf_count(ret < 0 ? "grammar-doc:options:rejected" : "grammar-doc:options:accepted", 1);
 		}
 	}
-	rec_verdict(&rec, &tc->f, ret, "A", tc->desc);
+	c08_rec_verdict(&rec, tc->f.type, tc->f.pf.sstart == tc->f.pf.send, ret, "A", tc->desc);
 	if (err_at != NONE && in.after_end && ret >= 0) vf_count("outcome:input-error-not-reported", 1);
 	vf_count("events:section", rec.kinds[1]);
 	vf_count("events:sectend", rec.kinds[2]);
@@ -491,7 +296,7 @@ static int drive_config(const testcase *tc, vf_rng *r)
 	if (err_at != NONE && in.after_end) vf_count("fault:getc-error-delivered", 1);
 	int events = (int) rec.count;
 	if (events >= 2 || (ret < 0 && in.calls >= 8)) vf_nontrivial();
-	rec_fini(&rec);
+	c08_rec_fini(&rec);
 	input_fini(&in);
 	return ret;
 }
@@ -511,7 +316,9 @@ static void drive_loop(const testcase *tc, vf_rng *r)
 	int ret;
 
 	input_init(&in, &tc->doc, err_at);
-	rec_init(&rec, &in, binary, -1);
+	c08_rec_init(&rec, binary, -1);
+	rec.tick = tick;
+	rec.tick_arg = &in;
 	ctx_setup(&ctx, &in, tc, r);
 	if (binary) path.flags = MPT_PATHFLAG(SepBinary);
 	vf_fp_u64(0xC0 ^ ((uint64_t) err_at << 8) ^ ((uint64_t) binary << 40));
@@ -523,7 +330,7 @@ static void drive_loop(const testcase *tc, vf_rng *r)
 		if ((ret = tc->f.next(&pf, &ctx, &path)) <= 0) break;
 		vec.iov_base = (char *) (path.base + path.off + path.len);
 		vec.iov_len = ctx.valid;
-		rec_save(&rec, &path, (ret & MPT_PARSEFLAG(Data)) ? &val : 0, ctx.prev, ret);
+		c08_rec_save(&rec, &path, (ret & MPT_PARSEFLAG(Data)) ? &val : 0, ctx.prev, ret);
 		if (ret & MPT_PARSEFLAG(SectEnd)) {
 			vf_at("mpt_path_del");
 			ret = mpt_path_del(&path);
@@ -541,9 +348,9 @@ static void drive_loop(const testcase *tc, vf_rng *r)
 	vf_log("C: = %d (%s) getc=%llu saves=%llu", ret, retname(ret), (unsigned long long) in.calls, (unsigned long long) in.saves);
 	vf_count("monitor:callback-bound-checks", in.calls + in.saves);
 	count_ret("C", ret);
-	rec_verdict(&rec, &tc->f, ret, "C", tc->desc);
+	c08_rec_verdict(&rec, tc->f.type, tc->f.pf.sstart == tc->f.pf.send, ret, "C", tc->desc);
 	vf_max("max:open-sections", rec.maxdepth);
-	rec_fini(&rec);
+	c08_rec_fini(&rec);
 	input_fini(&in);
 }
 
